@@ -240,6 +240,10 @@ func RegisterWatcher(events interface{}, done interface{}) {}
 // (lock-discipline check of the symbolic concurrent runs; no effect natively, where `go test -race` applies).
 func Protect(object interface{}, mu *sync.Mutex) {}
 
+// ProtectRW is Protect for state that several goroutines write: reads need the mutex as well. Counterexamples are
+// confirmed natively with a race-detector build of the replay binary (harness spec "race": true).
+func ProtectRW(object interface{}, mu *sync.Mutex) {}
+
 // TOMLBytesFail is TOMLBytes with a chosen decoder outcome: 0 the text decodes to v; 1 a syntax error (the
 // library reports a *toml.DecodeError); 2 an unknown field (strict-mode error, not a DecodeError).
 func TOMLBytesFail(v interface{}, kind int) []byte {
